@@ -268,7 +268,7 @@ func TestGRPC(t *testing.T) {
 		stats.CaseSample("protoc-refused|"+out.Run.Name, true, map[string]any{"design": out.Run.Name, "kind": "proto-file-refused", "detail": firstLines(out.Detail, 6)})
 		fmt.Printf("C10 generated protocol buffer file refused by protoc (design saved: %s):\n%s\n", dir, firstLines(out.Detail, 12))
 	}
-	sess, built := rt.Prepare(t, "c10", rt.Options{Profile: gen.GRPCProfile(), N: n, Seed: seed, Generate: generate, Extra: []*m.Design{gen.GRPCMatrix(), gen.GRPCStreamMatrix()}, OnSkip: onSkip})
+	sess, built := rt.Prepare(t, "c10", rt.Options{Profile: gen.GRPCProfile(), N: n, Seed: seed, Generate: generate, Extra: []*m.Design{gen.GRPCMatrix(), gen.GRPCStreamMatrix(), gen.NestMatrix()}, OnSkip: onSkip})
 	defer sess.Close()
 	defer rt.CloseAll(built)
 	if protoFailures > 0 {
